@@ -485,9 +485,22 @@ class Session:
             st.reads_returned = []
         random.seed(seed & 0xFFFFFFFF)
         fresh = None if fresh_tick is None else (self.fresh_dt(fresh_tick) if self.fresh_dt is not None else vstore.Clock.to_dt(fresh_tick))
-        res = rec_run = None
-        exc = None
-        before = rec.thread_census()
+        # cheap logical-deadlock watcher (as in plainrun): a run that can never finish is reported at once as inconclusive for the property at
+        # hand (C07 owns the hang verdict) instead of waiting for the wall-clock watchdog
+        drv = None
+        if kw.pop("hang_watch", True) and threading.current_thread() is threading.main_thread():
+            from . import plainrun
+
+            drv = plainrun._hang_watch(H, {"session": True}, None)
+        try:
+            return self._run_inner(out_ids, W, sched, fresh, perturb, seed, dry_run, rec.thread_census(), kw)
+        finally:
+            if drv is not None:
+                drv.run_done = True
+                drv.stop()
+
+    def _run_inner(self, out_ids, W, sched, fresh, perturb, seed, dry_run, before, kw):
+        res = exc = None
         with pert.make(seed, perturb) as P:
             try:
                 res = self.uberjob.run(
